@@ -24,6 +24,12 @@ CHECKS = {
   text="For every input of <= N scalar values (N=10 quick / 14 thorough) and for 8/12-character holes inside <!ELEMENT a ..>, an internal subset, an attribute value and element content, z3 decides (a) no accepted input selects a parse-model variant whose arm in info/src/lib.rs is unimplemented!/todo!/panic!, (b) every variant whose arm returns Err is refused by the real code with an error and no panic (one witness per arm replayed), (c) no production is entered more than 8 times at one input position (the signature of exponential re-parsing, e.g. nested content-model groups).",
   note="Partial: stack exhaustion by deep nesting, the Display/IndentedDisplay printers, cyclic entity expansion and panics that need a live item graph (RefCell borrows, DOM unwraps) are outside; panic macros outside parser-variant arms are listed in the evidence, not decided. Entry-count model validated against gdb hit counts on every run.",
   design="3/C03"),
+ "C04": dict(
+  technique="source-level symbolic execution (S-kernel) of the fmt::Display bodies and escape() composed with the S-grammar encoding of the creating production + SMT (z3); counterexamples replayed through from_raw",
+  category="model_checking",
+  text="For comment, CDATA, text, PI (no data / empty / data), character reference (both radices), entity reference, NOTATION, ENTITY (value pieces text / char ref / entity ref, external ids, NDATA), attribute (prefix, value pieces, quote selection) and the DOCTYPE header, with every field a symbolic string of <= 3 (quick) / 4 (thorough) scalar values constrained to what the parser can produce, the printer is executed symbolically and z3 decides that the printed sequence is consumed completely by the production that creates the item (and, for character references, that radix and digits are captured unchanged).",
+  note="Partial: whole documents, element nesting, PartialEq on items, the DOM delegation and IndentedDisplay are outside; captures other than character references are only checked through acceptance. The ATTLIST printer (prints nothing) is a listed known finding, re-witnessed through a real round trip each run.",
+  design="4/C04", engine="S-kernel + S-grammar"),
  "C06": dict(
   technique="SMT (z3 QF_BV) over the S-grammar encoding of xml_xpath::expr::parse and its work semantics; panic/reject arms of the evaluator read from source and mapped to grammar sites; witnesses replayed (query under catch_unwind, gdb hit counts)",
   category="model_checking",
@@ -85,7 +91,7 @@ m = {
            "baseline_off_cmd": "cd /repo && cargo test --workspace --no-fail-fast --offline", "source_commits": ["1af260d"], "add_only": True},
  "engines": [
   {"name": "S-grammar", "path": "engine/sx/nomsem.py", "serves_properties": ["C01", "C02", "C03", "C06", "C08", "C18"], "kind_free_text": "symbolic executor for the nom grammars read from /repo via engine/srcdump (syn); z3 QF_BV"},
-  {"name": "S-kernel", "path": "engine/sx/kernel.py", "serves_properties": ["C09", "C11", "C14", "C15", "C16"], "kind_free_text": "path-enumerating symbolic interpreter for small Rust functions read from the syn dump (engine/sx/kstd.py = std models); z3"},
+  {"name": "S-kernel", "path": "engine/sx/kernel.py", "serves_properties": ["C04", "C09", "C11", "C14", "C15", "C16"], "kind_free_text": "path-enumerating symbolic interpreter for small Rust functions read from the syn dump (engine/sx/kstd.py = std models); z3"},
   {"name": "Kani", "path": "kani/", "serves_properties": ["C18"], "kind_free_text": "Kani 0.68 / CBMC 6.11 harness crate with path dependencies on /repo crates"},
   {"name": "replay", "path": "replay/", "serves_properties": ["C01", "C02"], "kind_free_text": "Rust driver with path dependencies on /repo crates: replays solver models and validates the translator"},
  ],
